@@ -248,7 +248,42 @@ def gen_cases(chk):
         ops.insert(rng.randint(0, len(ops)), {"op": "add", "ps": ps, "dv": [gen_default(rng) for _ in range(ndv)]})
         ops.append({"op": "read"})
         hist.append({"kind": "hist", "valid": False, "ops": ops, "names": ["x", "y"]})
-    return conv, hist
+    # staged cases: every converter is called again after EVERY operation, for the same names and the same
+    # point; the histories re-register the SAME extra name with a DIFFERENT default after a reset
+    staged, preset = [], []
+    for j in range(40 if quick else 300):
+        names = gen_names(rng, hi=6)
+        pool = EXTRA_POOL[: rng.choice([1, 2, 3])]
+        ops = []
+        for _ in range(rng.randint(2, 7)):
+            r = rng.random()
+            if r < 0.35 and ops and ops[-1]["op"] != "reset":
+                ops.append({"op": "reset"})
+            else:
+                ps = rng.sample(pool, rng.randint(1, len(pool)))
+                ops.append({"op": "add", "ps": ps, "dv": [gen_default(rng) for _ in ps] if rng.random() < 0.85 else None,
+                            "as_tuple": rng.random() < 0.5})
+        if j % 3 == 0:   # the shortest such history: add(A) ; reset ; add(B)
+            q = rng.choice(pool)
+            ops = [{"op": "add", "ps": [q], "dv": [gen_default(rng)], "as_tuple": False}, {"op": "reset"},
+                   {"op": "add", "ps": [q], "dv": [gen_default(rng)], "as_tuple": False}] + ops[:2]
+        staged.append({"kind": "staged", "valid": True, "names": names, "nsp": rng.random() < 0.85, "ops": ops,
+                       "data": [[gen_value_bits(rng) for _ in names]]})
+    # a NON-DEFAULT configuration is set first (what a user of nessai.config may do), then a history
+    f4vals = [0.5, -2.0, 1.25, float("nan"), float("inf"), -0.0, 3.0]
+    presets = [{"default_float_dtype": "f4"}, {"it_default": 7}, {"default_float_value": {"f": fbits(0.0)}},
+               {"logl_dtype": "f4"}, {"it_dtype": "i8"},
+               {"default_float_dtype": "f4", "it_default": -1, "default_float_value": {"f": fbits(-1.5)}}]
+    for j in range(12 if quick else 60):
+        names = gen_names(rng, lo=2, hi=4)
+        ops = [o for o in gen_hist(rng, maxops=5, pool=EXTRA_POOL[:3], reads=False) if hist_valid([o])]
+        if not any(o["op"] == "reset" for o in ops):
+            ops.insert(rng.randint(0, len(ops)), {"op": "reset"})
+        if j % 2 == 0:
+            ops = [{"op": "add", "ps": ["logQ"], "dv": None}] + ops
+        preset.append({"kind": "preset", "valid": True, "preset": presets[j % len(presets)], "names": names, "ops": ops,
+                       "data": [[fbits(rng.choice(f4vals)) for _ in names] for _ in range(rng.choice([1, 2, 3]))]})
+    return conv, hist, staged, preset
 
 
 # ---------------------------------------------------------------------------------------------
@@ -418,6 +453,28 @@ def direct_hist(c, r):
     return bad
 
 
+def direct_staged(c, r):
+    """after every operation every converter agrees, by name, with what the registry holds NOW"""
+    bad = []
+    for k, st in enumerate(r["steps"]):
+        if st.get("op_error"):
+            bad.append(("registry:history-raised", f"operation {k} {c['ops'][k]} raised {st['op_error']}"))
+            continue
+        sub = {"names": c["names"], "nsp": c["nsp"], "data": c["data"], "hist": c["ops"][: k + 1]}
+        for key, what in direct_conv(sub, {"clean_start": True, "obs": st["obs"]}):
+            bad.append((key + ":after-history", f"after {c['ops'][: k + 1]}: {what}"))
+    return bad
+
+
+def direct_preset(c, r):
+    out = []
+    for b in r["bad"]:
+        cat = b["what"].split(":")[0] + ":" + b["what"].split(":")[1].strip().split(" ")[0]
+        out.append((f"registry:non-default-config:{cat}",
+                    f"configuration {c['preset']} then {c['ops'][: b['step'] + 1]} (after {b['after']}): {b['what']}"))
+    return out
+
+
 # ---------------------------------------------------------------------------------------------
 # Coq literals
 def cV(v):
@@ -486,6 +543,23 @@ def cCase(c, r):
     return txt, unencodable
 
 
+def cStaged(c, r):
+    base = {"hist": [], "names": c["names"], "nsp": c["nsp"], "data": c["data"]}
+    txt, _ = cCase(base, {"obs": {}})
+    steps = []
+    for op, st in zip(c["ops"], r["steps"]):
+        uniq, refs = [], []
+        for cid, o in sorted(((int(k), v) for k, v in st["obs"].items())):
+            t = cObs(o)
+            if t is None:
+                return None
+            if t not in uniq:
+                uniq.append(t)
+            refs.append(f"({cid}%nat, {uniq.index(t)}%nat)")
+        steps.append(f"({cOp(op)}, {cL(uniq)}, {cL(refs)})")
+    return f"({txt}, {cL(steps)})"
+
+
 def cHist(c, r):
     pr = []
     for p in r["probes"]:
@@ -523,7 +597,9 @@ def today(chk, sk):
     txt += f"Definition sk_now : cfg_sk := {sk}.\n"
     txt += "Lemma today : cfg_ok sk_now = true.\nProof. vm_compute. reflexivity. Qed.\n"
     txt += ("Lemma today_property : forall ops, registry_spec sk_now ops.\n"
-            "Proof. exact (cfg_ok_sound sk_now today). Qed.\n")
+            "Proof. exact (cfg_ok_sound sk_now today). Qed.\n"
+            "Lemma today_any_config : forall ops, registry_spec_gen sk_now ops.\n"
+            "Proof. exact (registry_gen sk_now (cfg_ok_struct sk_now today)). Qed.\n")
     ok, _, err = chk.coq_run("today_config", txt)
     chk.oblige("today: cfg_ok sk_now = true (LivepointsConfig fields, cached properties, reset, "
                "add_extra_parameters_to_live_points regenerated from the source) + instantiated soundness",
@@ -560,11 +636,13 @@ def run(chk):
     if sk is not None:
         today(chk, sk)
     sk_term = "sk_now" if sk is not None else "cfg_today"
-    conv, hist = gen_cases(chk)
-    res = run_impl(chk, conv + hist)
+    conv, hist, staged, preset = gen_cases(chk)
+    res = run_impl(chk, conv + hist + staged + preset)
     if res is None:
         return
-    rconv, rhist = res[: len(conv)], res[len(conv):]
+    rconv, rhist = res[: len(conv)], res[len(conv): len(conv) + len(hist)]
+    rstaged = res[len(conv) + len(hist): len(conv) + len(hist) + len(staged)]
+    rpreset = res[len(conv) + len(hist) + len(staged):]
     chk.evaluations = sum(len(r.get("obs", {})) for r in rconv) + sum(len(r["probes"]) for r in rhist)
     # ---- direct predicate ---------------------------------------------------------------------
     for c, r in zip(conv, rconv):
@@ -587,6 +665,24 @@ def run(chk):
         if len(ref_extras(c["ops"])) >= 1 and any(o["op"] == "reset" for o in c["ops"]):
             chk.nontriv(c)
         for key, what in direct_hist(c, r):
+            chk.fail(f"C18:{key}", what, {"case": c, "observed": r, "failure": what})
+    for c, r in zip(staged, rstaged):
+        chk.count("staged:ops=" + str(len(c["ops"])))
+        chk.evaluations += sum(len(st["obs"]) for st in r["steps"])
+        ex_seen = {}
+        for k in range(len(c["ops"])):
+            for nm, d in ref_extras(c["ops"][: k + 1]):
+                ex_seen.setdefault(nm, set()).add(d)
+        if any(len(v) > 1 for v in ex_seen.values()):
+            chk.count("staged:same-extra-name-re-registered-with-another-default")
+            chk.nontriv(c)
+        for key, what in direct_staged(c, r):
+            chk.fail(f"C18:{key}", what, {"case": c, "observed": r, "failure": what})
+    for c, r in zip(preset, rpreset):
+        chk.count("preset:" + "+".join(sorted(c["preset"])))
+        chk.evaluations += 1 + len(c["ops"])
+        chk.nontriv(c)
+        for key, what in direct_preset(c, r):
             chk.fail(f"C18:{key}", what, {"case": c, "observed": r, "failure": what})
     # ---- correspondence inside Coq -------------------------------------------------------------
     hdr = CASE_HEADER + (f"Definition sk_now : cfg_sk := {sk}.\n" if sk is not None else "")
@@ -616,6 +712,16 @@ def run(chk):
                f"({len(conv)} cases, {sum(len(r.get('obs', {})) for r in rconv)} observations)",
                "correspondence", ok_all and not bad_conv and unenc == 0,
                detail + (f"; {unenc} observations with a dtype outside f8/i4" if unenc else ""))
+    sl = [cStaged(c, r) for c, r in zip(staged, rstaged)]
+    txt = hdr + ("Definition staged : list (ccase * list (rop * list obs * list (nat * nat))) := [\n"
+                 + ";\n".join(t for t in sl if t is not None) + "].\n")
+    txt += f"Eval vm_compute in (mism (chk_staged {sk_term}) staged).\n"
+    ok, evals, err = chk.coq_run("staged", txt)
+    bad = common.parse_nat_list(evals[0]) if ok and len(evals) == 1 else []
+    kept = [k for k, t in enumerate(sl) if t is not None]
+    chk.oblige(f"correspondence: every converter after EVERY operation of a registry history = model "
+               f"({len(staged)} staged cases)", "correspondence", ok and not bad and len(kept) == len(sl),
+               err + "; ".join(json.dumps(staged[kept[k]])[:700] for k in bad[:2]))
     hl = [cHist(c, r) for c, r in zip(hist, rhist)]
     none = [k for k, t in enumerate(hl) if t is None]
     txt = hdr + "Definition hists : list (list rop * list (list string * list val * list kind)) := [\n" + ";\n".join(t for t in hl if t is not None) + "].\n"
@@ -640,7 +746,7 @@ def replay(data):
     r = subprocess.run(["timeout", "120", common.PY, os.path.join(common.VERIF, "harness", "c18_child.py")],
                        input=json.dumps([c]), capture_output=True, text=True, env=common.child_env())
     res = json.loads(r.stdout)[0]
-    bad = direct_conv(c, res) if c["kind"] == "conv" else direct_hist(c, res)
+    bad = {"conv": direct_conv, "staged": direct_staged, "preset": direct_preset}.get(c["kind"], direct_hist)(c, res)
     print(json.dumps({"case": c, "failures": bad}, indent=1)[:4000])
     if bad:
         print(f"VIOLATION property={PID} replay=(replayed) {bad[0][1][:300]}")
